@@ -54,7 +54,7 @@ pub trait MetricPublisher {
         mut metrics: Vec<PublishMetric>,
     ) -> impl std::future::Future<Output = Result<(), PublishError>> + Send {
         metrics.sort_by(|a, b| a.timestamp.cmp(&b.timestamp));
-        self.publish_metrics_unsorted(metrics)
+        self.try_publish_metrics_unsorted(metrics)
     }
 
     /// Publish a batch of metrics without modifying their order.
